@@ -347,7 +347,20 @@ def w_model(ctx, rng, i):
     all_eigs = np.array(model._eigenvalues, copy=True)   # at this point nothing is trimmed: these are all eigenvalues
     orig = float(all_eigs.sum())
     for step in range(int(rng.integers(1, 11))):
-        kind = ["int", "float", "trim_int", "trim_float", "restore", "query", "copy"][rng.integers(0, 7)]
+        kind = ["int", "float", "trim_int", "trim_float", "restore", "query", "copy", "whiten"][rng.integers(0, 8)]
+        if kind == "whiten":
+            # read-only derived quantities: asking for them leaves the model as it was (the invariant keeps judging)
+            wc = model.whitened_components()
+            xq = rng.normal(size=d) * scale
+            PCAVectorModel.project_whitened(model, xq)
+            exp_w = model.components / np.sqrt(model.eigenvalues * model.n_samples + model.noise_variance())[:, None]
+            if wc.shape != exp_w.shape or _amax(wc - exp_w) > 1e-9 * max(1e-300, float(np.abs(exp_w).max())):
+                ctx.fail("whitened_components_are_not_the_components_over_the_scaled_eigenvalues", cls=cls)
+            events.append(kind)
+            w = rng.normal(size=model.n_active_components)
+            x = rng.normal(size=d) * scale
+            PCAVectorModel.instance(model, w); PCAVectorModel.reconstruct(model, x); PCAVectorModel.project_out(model, x)
+            continue
         if kind == "copy":
             # the history continues on a copy (which has been used before, like its original)
             model = model.copy()
